@@ -7,6 +7,7 @@ import (
 	"go/ast"
 	"go/token"
 	"go/types"
+	"sort"
 	"strings"
 )
 
@@ -49,12 +50,24 @@ func propC16(p *Prog, r *Report) {
 	c15RunFirst(p, r, "C16.g")
 }
 
-func goLits(fi *FuncInfo) []*ast.FuncLit {
-	var res []*ast.FuncLit
+// goBody is the body of a goroutine a function starts: a function literal, or a function / method of the
+// module started by name.
+type goBody struct {
+	FI   *FuncInfo
+	Body *ast.BlockStmt
+	Pos  ast.Node
+}
+
+func (p *Prog) goBodies(fi *FuncInfo) []goBody {
+	var res []goBody
+	n := 0
 	ast.Inspect(fi.Decl.Body, func(x ast.Node) bool {
 		if g, ok := x.(*ast.GoStmt); ok {
 			if l, ok := g.Call.Fun.(*ast.FuncLit); ok {
-				res = append(res, l)
+				n++
+				res = append(res, goBody{FI: fi.LitInfo(l, n), Body: l.Body, Pos: l})
+			} else if callee := p.staticCallee(fi.Pkg, g.Call); callee != nil {
+				res = append(res, goBody{FI: callee, Body: callee.Decl.Body, Pos: callee.Decl})
 			}
 		}
 		return true
@@ -130,14 +143,14 @@ func c16Handoff(p *Prog, r *Report) {
 		"the producer does not push the job and try-lock the flusher flag inside one region of the queue lock")
 	// the try-lock itself must be taken under listM in lazyResend when called from lazySend: lazyResend has no listM ops itself
 	// flusher side
-	lits := goLits(rs)
+	lits := p.goBodies(rs)
 	if len(lits) != 1 {
-		r.Undecided("C16.a", kPoolResend+"#flusher", p.pos(rs.Decl), fmt.Sprintf("%d goroutine literals in lazyResend", len(lits)))
+		r.Undecided("C16.a", kPoolResend+"#flusher", p.pos(rs.Decl), fmt.Sprintf("%d goroutines started in lazyResend", len(lits)))
 		return
 	}
-	lit := lits[0]
+	lit := lits[0].Pos
 	info := rs.Pkg.TypesInfo
-	f := p.NewFlat(rs.Pkg, lit.Body)
+	f := p.FlatInl(lits[0].FI)
 	// pop node and its result variable
 	var popNode = -1
 	var popVar types.Object
@@ -279,14 +292,9 @@ func c16BeforeRun(p *Prog, r *Report) {
 			continue
 		}
 		info := fi.Pkg.TypesInfo
-		f := p.FlatOf(fi)
-		seen := map[string]bool{}
-		ast.Inspect(fi.Decl.Body, func(x ast.Node) bool {
-			c, ok := x.(*ast.CallExpr)
-			if !ok {
-				return true
-			}
-			// p.F.M(...) or p.F(...)
+		f := p.FlatInl(fi)
+		// calls through interface- or func-typed fields of Pool: p.F.M(...) or p.F(...)
+		fieldOf := func(c *ast.CallExpr) *ast.SelectorExpr {
 			var fieldSel *ast.SelectorExpr
 			if sel, ok := c.Fun.(*ast.SelectorExpr); ok {
 				if inner, ok := ast.Unparen(sel.X).(*ast.SelectorExpr); ok {
@@ -297,40 +305,74 @@ func c16BeforeRun(p *Prog, r *Report) {
 				}
 			}
 			if fieldSel == nil {
-				return true
+				return nil
 			}
 			fv, ok := info.Uses[fieldSel.Sel].(*types.Var)
 			if !ok || !fv.IsField() {
-				return true
+				return nil
 			}
 			switch fv.Type().Underlying().(type) {
 			case *types.Interface, *types.Signature:
 			default:
-				return true
+				return nil
 			}
-			if !strings.HasSuffix(info.Types[fieldSel.X].Type.String(), "wpool.Pool") {
-				return true
+			if tv, ok := info.Types[fieldSel.X]; !ok || !strings.HasSuffix(tv.Type.String(), "wpool.Pool") {
+				return nil
 			}
+			return fieldSel
+		}
+		type use struct {
+			sel  *ast.SelectorExpr
+			call *ast.CallExpr
+			node int // node of the exported method's (inlined) graph at which the use happens or is started
+		}
+		var uses []use
+		// uses inside helpers that are not inlined (started as goroutines, deferred, nested in expressions) count at their call site
+		var deep func(callee *FuncInfo, node int, open map[string]bool)
+		scan := func(root ast.Node, node int, open map[string]bool) {
+			ast.Inspect(root, func(x ast.Node) bool {
+				c, ok := x.(*ast.CallExpr)
+				if !ok {
+					return true
+				}
+				if fs := fieldOf(c); fs != nil {
+					uses = append(uses, use{fs, c, node})
+				}
+				if callee := p.staticCallee(fi.Pkg, c); callee != nil && callee.Pkg == fi.Pkg && !open[callee.Key] {
+					deep(callee, node, open)
+				}
+				return true
+			})
+		}
+		deep = func(callee *FuncInfo, node int, open map[string]bool) {
+			open[callee.Key] = true
+			scan(callee.Decl.Body, node, open)
+			delete(open, callee.Key)
+		}
+		for _, gn := range f.Nodes {
+			if gn.Ast != nil {
+				scan(gn.Ast, gn.ID, map[string]bool{fi.Key: true})
+			}
+		}
+		verdict := map[string]bool{}
+		first := map[string]*ast.CallExpr{}
+		var names []string
+		for _, u := range uses {
+			fv := info.Uses[u.sel.Sel].(*types.Var)
 			name := fv.Name()
-			if seen[name] {
-				return true
+			if _, ok := verdict[name]; !ok {
+				verdict[name] = true
+				first[name] = u.call
+				names = append(names, name)
+				n++
 			}
-			seen[name] = true
-			n++
-			cons := k + "#uses p." + name
 			if ctor[name] {
-				r.Hold("C16.b", cons, p.pos(c), "assigned by the constructor")
-				return true
+				continue
 			}
 			// dominated by a failed try-lock of the running flag (Stop) or assigned earlier in this function (Run)
-			var useNode = -1
-			for _, gn := range f.Nodes {
-				if gn.Ast != nil && gn.Ast.Pos() <= c.Pos() && c.End() <= gn.Ast.End() {
-					useNode = gn.ID
-				}
-			}
+			useNode := u.node
 			dominated := false
-			if useNode >= 0 {
+			{
 				// assigned earlier on every path
 				as := f.Match(func(gn *GNode) bool {
 					if a, ok := gn.Ast.(*ast.AssignStmt); ok {
@@ -380,10 +422,20 @@ func c16BeforeRun(p *Prog, r *Report) {
 					dominated = true
 				}
 			}
-			r.Check(dominated, "C16.b", cons, p.pos(c), "use dominated by an assignment or by evidence that Run happened",
+			if !dominated {
+				verdict[name] = false
+				first[name] = u.call
+			}
+		}
+		for _, name := range names {
+			cons := k + "#uses p." + name
+			if ctor[name] {
+				r.Hold("C16.b", cons, p.pos(first[name]), "assigned by the constructor")
+				continue
+			}
+			r.Check(verdict[name], "C16.b", cons, p.pos(first[name]), "use dominated by an assignment or by evidence that Run happened",
 				fmt.Sprintf("%s calls through p.%s, which only Run assigns: before the first Run the field is nil and the call panics", k, name))
-			return true
-		})
+		}
 	}
 	r.Floor("C16.b", "uses-of-lifecycle-fields", n, 3)
 }
@@ -455,6 +507,26 @@ func c16StopOrder(p *Prog, r *Report) {
 		}
 		r.Check(ok, "C16.c", cons, p.pos(f.Nodes[b.ids[0]].Ast), "ordered on every path", b.name+" can happen before "+a.name+": workers or senders may still use the channel / context")
 	}
+	// once the context is cancelled, Stop returns only after both waits: a return between the cancel and a wait
+	// lets Stop return while jobs are still running (and leaves the channel open for jobs that start later)
+	for _, w := range []struct {
+		name string
+		ids  []int
+	}{{"sendWg.Wait()", sendW}, {"runWg.Wait()", runW}} {
+		if len(cancel) == 0 || len(w.ids) == 0 {
+			continue
+		}
+		ws := setOf(w.ids)
+		reach := f.Reach(f.succsOf(cancel...), func(x *GNode) bool { return ws[x.ID] }, nil)
+		bad := ""
+		for _, e := range f.Exits() {
+			if reach[e] && !f.isNoReturnExit(f.Nodes[e]) {
+				bad = p.pos(f.Nodes[e].Ast)
+			}
+		}
+		r.Check(bad == "", "C16.c", kPoolStop+"#no-return-between-cancel-and-"+w.name, p.pos(fi.Decl), "every return after the cancel passes "+w.name,
+			"Stop can return at "+bad+" after cancelling the pool context without "+w.name+": it returns while accepted jobs are still running, and jobs still buffered can start after it has returned")
+	}
 	lr := p.LockFlow(fi, nil)
 	held := false
 	for _, hs := range lr.Exits {
@@ -481,10 +553,9 @@ func c16Registration(p *Prog, r *Report) {
 	// Send
 	if fi := p.Func(kPoolSend); fi != nil {
 		info := fi.Pkg.TypesInfo
-		f := p.FlatOf(fi)
-		lr := p.LockFlow(fi, nil)
+		f := p.FlatInl(fi)
 		var addEv, errEv *LockEvent
-		for _, ev := range lr.Events {
+		for _, ev := range p.DeepLockEvents(fi, nil, 2) {
 			if ev.Kind != "call" || ev.Call == nil {
 				continue
 			}
@@ -501,9 +572,8 @@ func c16Registration(p *Prog, r *Report) {
 		var cancelHeld, waitHeld []Held
 		cancelN, waitN := 0, 0
 		if stop != nil {
-			slr := p.LockFlow(stop, nil)
 			sinfo := stop.Pkg.TypesInfo
-			for _, ev := range slr.Events {
+			for _, ev := range p.DeepLockEvents(stop, nil, 2) {
 				if ev.Kind != "call" || ev.Call == nil {
 					continue
 				}
@@ -616,10 +686,11 @@ func c16Registration(p *Prog, r *Report) {
 		}
 		r.Check(ok, "C16.d", kPoolResend+"#add-before-go", p.pos(fi.Decl), "the flusher registers in sendWg before it is started", "the flusher goroutine is started before sendWg.Add(1): Stop can close the channel under it")
 		// flusher Done on all paths
-		for _, lit := range goLits(fi) {
-			lf := p.NewFlat(fi.Pkg, lit.Body)
+		for _, gb := range p.goBodies(fi) {
+			lit := gb.Pos
+			lf := p.FlatInl(gb.FI)
 			done := false
-			ast.Inspect(lit.Body, func(x ast.Node) bool {
+			ast.Inspect(gb.Body, func(x ast.Node) bool {
 				if ds, ok := x.(*ast.DeferStmt); ok {
 					ast.Inspect(ds, func(y ast.Node) bool {
 						if c, ok := y.(*ast.CallExpr); ok && isWGf(info, c, "sendWg", "Done") {
@@ -735,16 +806,24 @@ func hasDoneCase(info *types.Info, s *ast.SelectStmt) bool {
 
 func c16Blocking(p *Prog, r *Report) {
 	n := 0
-	for _, k := range []string{kPoolSend, kPoolResend} {
-		fi := p.Func(k)
-		if fi == nil {
-			continue
+	// every send on the pool's job channel, wherever in the package it sits (Send, the flusher, their helpers)
+	var keys []string
+	for k, fi := range p.Funcs {
+		if shortPath(fi.Pkg.PkgPath) == pkgWpool && fi.Decl.Body != nil {
+			keys = append(keys, k)
 		}
+	}
+	sort.Strings(keys)
+	for _, k := range keys {
+		fi := p.Func(k)
 		info := fi.Pkg.TypesInfo
 		i := 0
 		ast.Inspect(fi.Decl.Body, func(x ast.Node) bool {
 			ss, ok := x.(*ast.SendStmt)
 			if !ok {
+				return true
+			}
+			if sel, ok := ast.Unparen(ss.Chan).(*ast.SelectorExpr); !ok || sel.Sel.Name != "ch" {
 				return true
 			}
 			n++
@@ -824,8 +903,9 @@ func c16Structure(p *Prog, r *Report) {
 	r.Check(len(sites) == 2, "C16.f", "job-channel-producers", "", fmt.Sprintf("jobs enter the channel from %v", sites), fmt.Sprintf("jobs enter the channel from %d sites %v; the design has exactly two (Send, flusher)", len(sites), sites))
 	// flusher: pop precedes send
 	if fi := p.Func(kPoolResend); fi != nil {
-		for _, lit := range goLits(fi) {
-			f := p.NewFlat(fi.Pkg, lit.Body)
+		for _, gb := range p.goBodies(fi) {
+			lit := gb.Pos
+			f := p.FlatInl(gb.FI)
 			pops := f.CallNodes("(*internal/model/core.List).PopBack", "(*internal/model/core.List).PopFront")
 			var sends []int
 			for _, n := range f.Nodes {
